@@ -27,7 +27,7 @@ Lemma release_not_lowest_keeps s t k : rel_branch s t k <> BLowest ->
   sw_count (snd (sw_release s t k)) = sw_count s /\
   sum_out (sw_tags (snd (sw_release s t k))) = sum_out (sw_tags s).
 Proof.
-  intros Hne. unfold sw_release. destruct (rel_branch s t k) eqn:E; cbn [snd]; try (split; reflexivity).
+  intros Hne. unfold sw_release, sw_release_with. destruct (rel_branch s t k) eqn:E; cbn [snd]; try (split; reflexivity).
   - contradiction.
   - cbn [sw_count sw_tags]. split; [reflexivity|].
     rewrite sum_out_upd, lookup_contrib. cbn [t_next t_low]. lia.
@@ -151,33 +151,35 @@ Proof.
   rewrite Hg in *. apply H4. lia.
 Qed.
 
-(** Releasing the lowest token of a known tag notifies: with a waiter asleep
-    the step is enabled exactly with a chosen waiter, who becomes notified. *)
+Lemma lowest_branch s t : t_low (get s t) < t_next (get s t) ->
+  rel_branch s t (t_low (get s t)) = BLowest.
+Proof.
+  unfold rel_branch, get. destruct (lookup (sw_tags s) t) as [r|]; [|cbn; lia].
+  intros H. rewrite Z.eqb_refl. destruct (t_low r <? t_next r) eqn:E; [reflexivity|lia].
+Qed.
+
+(** Releasing the lowest outstanding token of a tag notifies: with a waiter
+    asleep the step is enabled exactly with a chosen waiter, who becomes
+    notified. *)
 Lemma release_lowest_notifies c t w c' o :
-  known (c_sw c) t = true -> c_wait c <> [] ->
+  t_low (get (c_sw c) t) < t_next (get (c_sw c) t) -> c_wait c <> [] ->
   cstep c (LRel t (t_low (get (c_sw c) t)) w) = Some (c', o) ->
   exists tid tg, w = Some tid /\ find_tid tid (c_wait c) = Some tg /\
     c_noti c' = (tid, tg) :: c_noti c /\ c_wait c' = remove_tid tid (c_wait c).
 Proof.
-  intros Hk Hne. cbn [cstep].
-  assert (Hbr : rel_branch (c_sw c) t (t_low (get (c_sw c) t)) = BLowest).
-  { unfold rel_branch, known, get in *. destruct (lookup (sw_tags (c_sw c)) t); [|discriminate].
-    now rewrite Z.eqb_refl. }
-  rewrite Hbr. destruct (sw_release _ _ _) as [x s']. destruct w as [tid|].
+  intros Hk Hne. cbn [cstep]. rewrite (lowest_branch _ _ Hk).
+  destruct (sw_release _ _ _) as [x s']. destruct w as [tid|].
   - destruct (find_tid tid (c_wait c)) as [tg|] eqn:Ef; [|discriminate].
     intros [= <- <-]. exists tid, tg. cbn [c_noti c_wait]. auto.
   - destruct (c_wait c); [contradiction|discriminate].
 Qed.
 
 Lemma release_lowest_enabled c t tid tg :
-  known (c_sw c) t = true -> find_tid tid (c_wait c) = Some tg ->
+  t_low (get (c_sw c) t) < t_next (get (c_sw c) t) -> find_tid tid (c_wait c) = Some tg ->
   cstep c (LRel t (t_low (get (c_sw c) t)) (Some tid)) <> None.
 Proof.
-  intros Hk Hf. cbn [cstep].
-  assert (Hbr : rel_branch (c_sw c) t (t_low (get (c_sw c) t)) = BLowest).
-  { unfold rel_branch, known, get in *. destruct (lookup (sw_tags (c_sw c)) t); [|discriminate].
-    now rewrite Z.eqb_refl. }
-  rewrite Hbr, Hf. destruct (sw_release _ _ _). discriminate.
+  intros Hk Hf. cbn [cstep]. rewrite (lowest_branch _ _ Hk), Hf.
+  destruct (sw_release _ _ _). discriminate.
 Qed.
 
 (** A notified thread that runs while a permit is there takes it. *)
